@@ -36,6 +36,9 @@ STD_FINITE_ITERS = (
 )
 
 
+MODELLED = ("libtw2_common::num::cast::",)
+
+
 def totality(ctx, rep, rule, entries, reviewed, exempt_fns=(), trusted_fns=(), skip_fns=(), api_preconditions=()):
     """A3+A4: every panic site reachable from the entry points is discharged by its dominating
     guards (or, through exported preconditions, by the guards at every call site), or is a
@@ -44,7 +47,10 @@ def totality(ctx, rep, rule, entries, reviewed, exempt_fns=(), trusted_fns=(), s
     cg = ctx.cg
     eids = resolve_entries(prog, entries)
     R = cg.reachable(eids)
-    R = set(f for f in R if not any(path_matches(f, s) or f.startswith(s) for s in skip_fns))
+    # the asserting casts of common::num::cast are modelled at their call sites (exact range
+    # preconditions, sa/panics.py), not analysed as bodies
+    skip_fns = tuple(skip_fns) + MODELLED
+    R = set(f for f in R if not any(path_matches(f, s) or f.startswith(s) or s in f for s in skip_fns))
     pa = PanicAnalysis(prog, exempt_fns=exempt_fns, trusted_fns=trusted_fns)
     used = set()
     nsites = 0
